@@ -637,6 +637,59 @@ func TestC06(t *testing.T) {
 	}
 	c.Exhaustive("Clone interleavings: {BLAKE2Xb, BLAKE2Xs} x declared {unknown, 1000, 3*node+5, 12*node} x clone position {0,1,node/2,node-1,node,node+3,2*node-1} x 6 advance orders (source first, clone first, alternating, far ahead, clone of clone, two clones)", nInter)
 
+	// concurrency part: separate XOF objects (and clones) driven from several goroutines at once
+	{
+		failure, calls, ks := concPart("C06", ev.Scale(3000, 20000), func(d *drbg, w int) []concJob {
+			var jobs []concJob
+			for i := 0; i < 6; i++ {
+				a := c06B
+				if i%2 == 1 {
+					a = c06S
+				}
+				declared := uint32(d.intn(400))
+				key, msg := d.bytes(d.intn(a.maxKey+1)), d.bytes(d.intn(200))
+				n := 1 + d.intn(300)
+				if declared != 0 && n > int(declared) {
+					n = int(declared)
+				}
+				chunk := 1 + d.intn(90)
+				xl := declared
+				if xl == 0 {
+					xl = a.unknown
+				}
+				want := append([]byte{}, ref.NewB2XStream(a.s, xl, key, msg).Upto(n)...)
+				want = append(want, want...) // the original and a mid-stream clone must both produce it
+				jobs = append(jobs, concJob{name: fmt.Sprintf("%s NewXOF(%d, %d-byte key) Write(%d) Read(%d in %d-byte chunks) + Clone", a.name, declared, len(key), len(msg), n, chunk), run: func() []byte {
+					x, err := a.newXOF(declared, key)
+					if err != nil {
+						return nil
+					}
+					x.Write(msg)
+					cl := c06Clone(x)
+					out := make([]byte, 0, 2*n)
+					for _, r := range []c06XOF{x, cl} {
+						buf := make([]byte, n)
+						for off := 0; off < n; off += chunk {
+							r.Read(buf[off:min(n, off+chunk)])
+						}
+						out = append(out, buf...)
+					}
+					return out
+				}, want: want})
+			}
+			return jobs
+		})
+		if failure != "" {
+			what := "concurrent use of separate XOF objects: " + failure
+			c.Violation(what, "")
+			t.Fatalf("VF-VIOLATION: property=C06 %s", what)
+		}
+		for _, k := range ks {
+			c.Case(true, fmt.Sprintf("concurrent|k=%d", k), fmt.Sprintf("concurrency:k=%d", k))
+		}
+		c.ClassN("concurrency:calls", calls)
+	}
+
 	// the reference's parameter-block handling against hashlib's tree parameters
 	// (hashlib refuses depth = 0, so the node hashes themselves cannot be replayed there)
 	for i := 0; i < ev.Scale(40, 300); i++ {
